@@ -396,12 +396,26 @@ static inline int data_probe_chunk_length(htp_connp_t *connp) {
  * @returns HTP_OK on state change, HTP_ERROR on error, or HTP_DATA when more data is needed.
  */
 htp_status_t htp_connp_RES_BODY_CHUNKED_LENGTH(htp_connp_t *connp) {
+    // Set once the probe has found the first chunk length character of the
+    // current line; the answer cannot change for the rest of that line, and
+    // probing again for every byte would rescan the line each time.
+    int chunklen_seen = 0;
+
     for (;;) {
         OUT_COPY_BYTE_OR_RETURN(connp);
 
         // Have we reached the end of the line? Or is this not chunked after all?
-        if (connp->out_next_byte == LF ||
-                (!is_chunked_ctl_char((unsigned char) connp->out_next_byte) && !data_probe_chunk_length(connp))) {
+        int line_ends = (connp->out_next_byte == LF);
+        if (!line_ends && !chunklen_seen && !is_chunked_ctl_char((unsigned char) connp->out_next_byte)) {
+            if (!data_probe_chunk_length(connp)) {
+                line_ends = 1;
+            } else if (connp->out_current_read_offset - connp->out_current_consume_offset >= 8) {
+                // With fewer bytes the probe only gives the benefit of the doubt.
+                chunklen_seen = 1;
+            }
+        }
+
+        if (line_ends) {
             unsigned char *data;
             size_t len;
 
@@ -423,6 +437,7 @@ htp_status_t htp_connp_RES_BODY_CHUNKED_LENGTH(htp_connp_t *connp) {
             // empty chunk length line, lets try to continue
             if (connp->out_chunked_length == -1004) {
                 connp->out_current_consume_offset = connp->out_current_read_offset;
+                chunklen_seen = 0;
                 continue;
             }
             if (connp->out_chunked_length < 0) {
